@@ -581,4 +581,191 @@ theorem transfer_index_sound (cx : Ctx Oid) (dest0 new dirOrder : List Oid) (idx
       simp only [hfe, if_false]
       simp only [Option.some.injEq] at hi; subst hi; exact Or.inl hx
 
+
+/-! ## histories: transfers with failures, external deletions and additions, status queries -/
+
+theorem foldl_okDirs_sub (cx : Ctx Oid) : ∀ (dirs : List Oid) (s : St Oid) (x : Oid),
+    x ∈ (dirs.foldl (stepDir cx) s).okDirs → x ∈ s.okDirs ∨ x ∈ dirs := by
+  intro dirs
+  induction dirs with
+  | nil => intro s x h; exact Or.inl h
+  | cons d r ih =>
+    intro s x h
+    simp only [List.foldl_cons] at h
+    rcases ih _ x h with h' | h'
+    · rcases stepDir_okDirs cx s d x h' with h'' | ⟨rfl, _⟩
+      · exact Or.inl h''
+      · exact Or.inr (by simp)
+    · exact Or.inr (List.mem_cons_of_mem _ h')
+
+theorem indexDirs_wf (cx : Ctx Oid) (env : Env Oid) (henv : env.isDir = cx.isDir)
+    (hL : ∀ d f, f ∈ cx.L d → cx.isDir f = false) : ∀ (ds : List Oid) (i : RIndex Oid),
+    IndexWF env i → (∀ d ∈ ds, cx.isDir d = true) → IndexWF env (indexDirs cx i ds) := by
+  intro ds
+  induction ds with
+  | nil => intro i hw _; exact hw
+  | cons d r ih =>
+    intro i hw hd
+    simp only [indexDirs, List.foldl_cons]
+    apply ih
+    · apply update_wf env i d (cx.L d) hw
+      · rw [henv]; exact hd d (by simp)
+      · intro f hf; rw [henv]; exact hL d f hf
+    · intro e he; exact hd e (List.mem_cons_of_mem _ he)
+
+/-- the world of a history: the remote store, the index kept for it, and the history variable
+    `ever` = every identifier that was in the store at some point -/
+structure World (Oid : Type) where
+  store : List Oid
+  idx : RIndex Oid
+  ever : List Oid
+
+inductive HOp (Oid : Type)
+  /-- `status(remote, req, index=idx)`; `loadable d` = the directory object can be loaded from the cache -/
+  | query (shallow : Bool) (req : List Oid) (loadable : Oid → Bool)
+  /-- `transfer(..., dest_index=idx)` of the new objects `new`, directories in order `dirOrder`, with failing uploads -/
+  | xfer (new dirOrder missing : List Oid) (fails : Oid → Bool)
+  /-- somebody deletes an object from the remote behind the index's back -/
+  | del (x : Oid)
+  /-- somebody else puts an object there -/
+  | extAdd (x : Oid)
+
+variable (L : Oid → List Oid) (isDir : Oid → Bool)
+
+def envOf (loadable : Oid → Bool) : Env Oid :=
+  { isDir := isDir, load := fun d => if loadable d then some (L d) else none }
+
+def stepH (w : World Oid) : HOp Oid → World Oid
+  | .query sh req ld =>
+    match status (envOf L isDir ld) w.store (some w.idx) sh req with
+    | .ok o => (match o.index with | some i => { w with idx := i } | none => w)
+    | .notFound => w
+  | .xfer new order missing fails =>
+    let r := transferWith ⟨L, isDir, fails, missing⟩ w.store new (some w.idx) order
+    { store := r.dest, idx := (match r.destIndex with | some i => i | none => w.idx), ever := w.ever ++ r.dest }
+  | .del x => { w with store := w.store.filter (· ≠ x) }
+  | .extAdd x => { w with store := x :: w.store, ever := x :: w.ever }
+
+def runH (w : World Oid) (ops : List (HOp Oid)) : World Oid := ops.foldl (stepH L isDir) w
+
+/-- transfers process directory identifiers in their per-directory loop -/
+def HOp.ok : HOp Oid → Prop
+  | .xfer _ order _ _ => ∀ d ∈ order, isDir d = true
+  | _ => True
+
+/-- **the index never invents an object**: whatever it holds was in the store at some point of
+    the history, or is listed by a directory object that was -/
+structure HInv (w : World Oid) : Prop where
+  noInvent : ∀ x ∈ w.idx.keys, x ∈ w.ever ∨ ∃ d ∈ w.ever, x ∈ L d
+  storeEver : ∀ x ∈ w.store, x ∈ w.ever
+  wf : IndexWF (envOf L isDir fun _ => true) w.idx
+
+theorem transferWith_index_wf (hL : ∀ d f, f ∈ L d → isDir f = false) (dest0 new order missing : List Oid)
+    (fails : Oid → Bool) (idx i' : RIndex Oid) (hw : IndexWF (envOf L isDir fun _ => true) idx)
+    (hord : ∀ d ∈ order, isDir d = true)
+    (hi : (transferWith ⟨L, isDir, fails, missing⟩ dest0 new (some idx) order).destIndex = some i') :
+    IndexWF (envOf L isDir fun _ => true) i' := by
+  unfold transferWith at hi
+  split at hi
+  · simp only [Option.some.injEq] at hi; subst hi; exact hw
+  · simp only at hi
+    split at hi
+    · simp only [Option.map_some, Option.some.injEq] at hi
+      subst hi
+      apply indexDirs_wf ⟨L, isDir, fails, missing⟩ (envOf L isDir fun _ => true) rfl hL _ _ hw
+      intro d hd
+      have : d ∈ ([] : List Oid) ∨ d ∈ order := by
+        have := foldl_okDirs_sub ⟨L, isDir, fails, missing⟩ order
+          { dest := dest0, pending := List.filter (fun x => !isDir x) new, failed := [] } d
+        apply this
+        simpa [doTransfer] using hd
+      rcases this with h | h
+      · simp at h
+      · exact hord d h
+    · simp only [Option.some.injEq] at hi; subst hi; exact hw
+
+theorem stepH_inv (hL : ∀ d f, f ∈ L d → isDir f = false) (w : World Oid) (op : HOp Oid)
+    (hop : op.ok isDir) (hi : HInv L isDir w) : HInv L isDir (stepH L isDir w op) := by
+  cases op with
+  | query sh req ld =>
+    simp only [stepH]
+    cases hs : status (envOf L isDir ld) w.store (some w.idx) sh req with
+    | notFound => exact hi
+    | ok o =>
+      simp only
+      have hfe : FilesOnlyEnv (envOf L isDir ld) := by
+        intro d es hl f hf
+        simp only [envOf] at hl
+        split at hl
+        · injection hl with hl; subst hl; exact hL d f hf
+        · cases hl
+      have hw : IndexWF (envOf L isDir ld) w.idx := hi.wf
+      obtain ⟨_, idx', ho, hw', hk, _⟩ := status_index_sound (envOf L isDir ld) hfe w.store w.idx hw sh req o hs
+      rw [ho]
+      refine ⟨?_, hi.storeEver, hw'⟩
+      intro x hx
+      rcases hk x hx with h | ⟨h, _⟩ | ⟨d, es, hd, hdd, hl, hxe⟩
+      · exact hi.noInvent x h
+      · exact Or.inl (hi.storeEver x h)
+      · right
+        refine ⟨d, hi.storeEver d hd, ?_⟩
+        simp only [envOf] at hl
+        split at hl
+        · injection hl with hl; subst hl; exact hxe
+        · cases hl
+  | xfer new order missing fails =>
+    simp only [stepH]
+    cases hdi : (transferWith ⟨L, isDir, fails, missing⟩ w.store new (some w.idx) order).destIndex with
+    | none =>
+      simp only
+      refine ⟨?_, ?_, hi.wf⟩
+      · intro x hx
+        rcases hi.noInvent x hx with h | ⟨d, hd, h⟩
+        · exact Or.inl (List.mem_append_left _ h)
+        · exact Or.inr ⟨d, List.mem_append_left _ hd, h⟩
+      · intro x hx; exact List.mem_append_right _ hx
+    | some i' =>
+      simp only
+      refine ⟨?_, ?_, ?_⟩
+      · intro x hx
+        rcases transfer_index_sound ⟨L, isDir, fails, missing⟩ w.store new order w.idx x i' hdi hx with h | h | ⟨d, hd, hxd⟩
+        · rcases hi.noInvent x h with h' | ⟨d, hd, h'⟩
+          · exact Or.inl (List.mem_append_left _ h')
+          · exact Or.inr ⟨d, List.mem_append_left _ hd, h'⟩
+        · exact Or.inl (List.mem_append_right _ h)
+        · exact Or.inr ⟨d, List.mem_append_right _ hd, hxd⟩
+      · intro x hx; exact List.mem_append_right _ hx
+      · exact transferWith_index_wf L isDir hL w.store new order missing fails w.idx i' hi.wf hop hdi
+  | del x =>
+    simp only [stepH]
+    exact ⟨hi.noInvent, fun y hy => hi.storeEver y (List.mem_filter.mp hy).1, hi.wf⟩
+  | extAdd x =>
+    simp only [stepH]
+    refine ⟨?_, ?_, hi.wf⟩
+    · intro y hy
+      rcases hi.noInvent y hy with h | ⟨d, hd, h⟩
+      · exact Or.inl (List.mem_cons_of_mem _ h)
+      · exact Or.inr ⟨d, List.mem_cons_of_mem _ hd, h⟩
+    · intro y hy
+      rcases List.mem_cons.mp hy with rfl | h
+      · simp
+      · exact List.mem_cons_of_mem _ (hi.storeEver y h)
+
+/-- **C12 over histories.** After *any* history of transfers (with any failing uploads, any
+    processing order), external deletions and additions, and status queries sharing one index, the
+    index holds only identifiers that were in the store at some point of the history or are listed by
+    a directory object that was. -/
+theorem history_never_invents (hL : ∀ d f, f ∈ L d → isDir f = false) (w : World Oid) (ops : List (HOp Oid))
+    (hops : ∀ op ∈ ops, op.ok isDir) (hi : HInv L isDir w) : HInv L isDir (runH L isDir w ops) := by
+  unfold runH
+  induction ops generalizing w with
+  | nil => exact hi
+  | cons op r ih =>
+    simp only [List.foldl_cons]
+    exact ih _ (fun o ho => hops o (List.mem_cons_of_mem _ ho)) (stepH_inv L isDir hL w op (hops op (by simp)) hi)
+
+/-- a fresh index over any store satisfies the history invariant -/
+theorem hinv_init (store : List Oid) : HInv L isDir { store := store, idx := {}, ever := store } :=
+  ⟨by intro x hx; simp [RIndex.keys] at hx, fun _ h => h, ⟨by simp, by simp⟩⟩
+
 end DvcData.Transfer
